@@ -11,7 +11,9 @@ PROP = {
                   "write_with_password(_light), set_password) and writer/csv.rs (write), as fixed, are modelled as sequences of "
                   "system calls (create, write, rename, remove) on a finite-map file system with a BufWriter of capacity 8192; "
                   "all-or-nothing and the observer statement are theorems for ALL outputs, ALL file systems in which the destination "
-                  "is a regular file and the temp name is not a symlink, and ALL fault plans (creation fails; every write call may "
+                  "is a regular file - or does not exist yet / is in any other non-directory state (C13_all_or_nothing_fresh, "
+                  "C13_observer_fresh, C13_observer_any: no file or the complete new file in every state, never an empty or partial "
+                  "one) - and the temp name is not a symlink, and ALL fault plans (creation fails; every write call may "
                   "fail or accept any number of bytes; rename fails; remove fails).  write_writer on an arbitrary failing sink is "
                   "proved to return ok-with-complete-output or err-with-a-proper-prefix (never panic).  The protocol as it was "
                   "(no explicit flush) is refuted by a decided 3-byte witness.  The model is tied to the code on every run by "
@@ -24,6 +26,7 @@ PROP = {
                   "power loss and durability (no fsync in the code) are outside the model.",
     "expect_theorems": ["C13_all_or_nothing", "C13_all_or_nothing_password", "C13_all_or_nothing_set_password",
                         "C13_observer", "C13_observer_only_rename", "C13_observer_password",
+                        "C13_all_or_nothing_fresh", "C13_observer_fresh", "C13_observer_password_fresh", "C13_observer_any",
                         "C13_sink", "C13_sink_no_panic", "C13_unflushed_fails", "C13_csv_unwrap_fails"],
     "rule": "(a) sinks: kind in {xlsx, light, csv, password(container writer, via hook)} x workbook {small, big, empty} x per-call "
             "acceptance limit {all, 1, 100, 1000, 8192, 10000 bytes} x failing call index i (every i up to the number of calls of a "
@@ -32,7 +35,11 @@ PROP = {
             "big ~50 KiB, empty csv} x fault {none, temp name symlinked to /dev/full, RLIMIT_FSIZE=k for k in steps of 512 (quick) / "
             "every byte for outputs below 8 KiB and steps of 64 above (thorough) plus boundary values, temp name is a directory "
             "(creation fails), destination is a non-empty directory (rename fails)} x old destination size {37, 70000}; "
-            "(c) SIGKILL at random instants during repeated saves (exploration only). "
+            "the same faults with a destination that does not exist before the call (the /dev/full trick then shows WHERE the data "
+            "is written: to the temp name, never to the destination); "
+            "(c) SIGKILL at random instants during repeated saves, over an existing and over a fresh destination (exploration only); "
+            "(d) an observer thread reading the destination as fast as it can during repeated saves of a ~50 KiB / ~700 KiB output, "
+            "existing and fresh destination: every observation is old / absent / one of the complete outputs (exploration only). "
             "non-trivial = a fault was injected or the no-fault reference case; distinct = distinct request line",
     "trusted_base": TB_COMMON + [
         "std::io::BufWriter (capacity 8192: small writes buffered, a write >= capacity bypasses after flushing, flush returns "
@@ -52,8 +59,9 @@ PROP = {
         "the complete output is built in memory before the first write (true for all modelled functions)",
     ],
     "partial_clauses": [
-        "process kills at arbitrary instants: only explored (50 SIGKILLs per quick run, 200 per thorough run, destination must "
-        "be old or new; a temp file may be left behind) - the model has no notion of a killed process; every state of the "
+        "process kills at arbitrary instants and concurrent observers on the real file system: only explored (50 SIGKILLs per "
+        "quick run, 200 per thorough run, half of them over a destination that did not exist; 6 observer runs with 10^4..10^5 "
+        "reads each; destination must be old / absent or new; a temp file may be left behind) - the model has no notion of a killed process; every state of the "
         "proved history is old-or-new, which covers kills between system calls under the rename-atomicity assumption",
         "durability after power loss (the code never calls fsync) is outside the model and the harness",
         "a planted symlink at the temp name is executed by the model in the driver and compared with the implementation, but "
